@@ -1,5 +1,5 @@
 """C10 — multisig cosigner wallets agree on scripts; exactly m distinct signers suffice."""
-import hashlib, hmac, itertools
+import hashlib, hmac, itertools, random
 from core import Case
 
 PROP = 'C10'
@@ -45,7 +45,10 @@ RULE = ('every m-of-n (n <= 3 quick, n <= 5 thorough), three wallet kinds, every
         'hand-off chains over {object, dict, raw} (sampled quick, exhaustive n <= 3 thorough); every chain with its own '
         'spend: replace_by_fee, locktime (none / height / time), anti_fee_sniping per wallet, fee, 1-3 outputs of four '
         'script types, 0-3 change outputs, 1-3 inputs from 1-3 address rows, explicit or selected inputs (min_confirms at '
-        'and above the boundary); repeated signers, unsigned hand-off, sort_keys off; after the create op and after '
+        'and above the boundary); the spent outputs sit at output indices 0, 1, 2, 3, 255..257, 65535..65537, 2^24-1..2^24+1, '
+        '0x01020304, 2^31-1, 2^31, 2^32-2 of their funding transactions (every byte of the 4-byte index), one funding transaction '
+        'per output / per address row / for all outputs, funding txids starting / ending with zero bytes (handed to the wallets '
+        'through utxos_update(utxos=...)); repeated signers, unsigned hand-off, sort_keys off; after the create op and after '
         'EVERY sign / hand-off / send the serialised transaction is parsed and compared field by field; a ceremony is '
         'non-trivial when all wallets were created and at least one observation was produced; distinct by request')
 
@@ -646,10 +649,40 @@ def spend_total(vstep, rows_txt):
     return tot
 
 
+# Where the spent outputs sit in their funding transactions.  The offline provider (and the old streams) only ever fund output 0
+# of a funding transaction of their own; the wallets are handed outputs at these indices instead (every byte position of the
+# 4-byte index, both neighbours of each carry), several outputs of ONE funding transaction, and funding txids that start /
+# end with zero bytes.  The model speaks of outpoints by (row, ordinal); the oracle reads them from the serialised spend.
+FUND_INDEX = [0, 1, 2, 3, 255, 256, 257, 65535, 65536, 65537, 16777215, 16777216, 16777217, 0x01020304, 0x7fffffff, 0x80000000,
+              0xfffffffe]
+
+
+def funding_of(seed, nrows):
+    """-> (output indices at position 2 * row + ordinal, funding-txid mode); drawn from the case's first seed so that
+    the other streams of a run are not disturbed"""
+    r = random.Random(seed)
+    mode = r.choice(['h', 'h', 's', 's', 'r', 'r'])
+    tag = '' if mode == 'h' else str(r.randrange(100))
+    zeros = r.choice(['', '', 'z', 't', 'b'])
+    if mode == 's':
+        on = r.sample(FUND_INDEX[:-3] + [4, 5, 6, 7, 8, 9], 2 * nrows)
+    else:
+        on = [r.choice(FUND_INDEX) for _ in range(2 * nrows)]
+        for row in range(nrows):                # the two outputs of a row never share an outpoint
+            while on[2 * row + 1] == on[2 * row]:
+                on[2 * row + 1] = r.choice(FUND_INDEX)
+    if r.random() < 0.12:
+        on = [0] * (2 * nrows) if mode == 'h' else on      # the old shape stays in the population
+    elif not any(on):
+        on[0] = 1
+    return on, mode + tag + zeros
+
+
 def make_case2(kind_tag, k, m, sort, wallets_spec, rows, chains, spends, seeds, cpath=0, given=None,
-               nw='bitcoinlib_test', afs=None, dests=None, vstep=VSTEP):
+               nw='bitcoinlib_test', afs=None, dests=None, vstep=VSTEP, funding='auto'):
     """wallets_spec: per wallet [(who, form)] in supplied order; rows: [(change, address_index)];
-    spends: per chain dict(rows, rbf, lock, fee, vals, nch, sel); dests: [(type letter, hash bytes)]"""
+    spends: per chain dict(rows, rbf, lock, fee, vals, nch, sel); dests: [(type letter, hash bytes)];
+    funding: 'auto' | None (every output is output 0 of its own funding transaction) | (indices, txid mode)"""
     coin = NETWORKS[nw][3]
     n = len(seeds)
     masters0 = [derive(s_, []) for s_ in seeds]
@@ -673,6 +706,11 @@ def make_case2(kind_tag, k, m, sort, wallets_spec, rows, chains, spends, seeds, 
     opts = 'nw=%s;afs=%s;bc=%d;dust=%d;uv=%d;vstep=%d:%d;conf=%d;dst=%s;dsh=%s' % (
         nw, afs, BLOCKCOUNT, DUST, UTXO_VALUE, vstep[0], vstep[1], UTXO_CONFIRMS,
         '+'.join(destination(nw, t, h)[0] for t, h in dests), '+'.join('%s:%s' % (t, h.hex()) for t, h in dests))
+    if funding == 'auto':
+        # the wallets are handed chosen outputs only where the adapter does not ask the offline provider
+        funding = funding_of(seeds[0], len(rows)) if (vstep != (0, 0) or nw != 'bitcoinlib_test') else None
+    if funding:
+        opts += ';on=%s;txm=%s' % ('+'.join(str(x) for x in funding[0]), funding[1])
     req = 'cer2 %s %d %d %s %d %d %s %s %s %s %s %s' % (
         k, m, 1 if sort else 0, gtxt, coin, cpath, ';'.join(wl), addrs, ';'.join(chains) if chains else '-',
         sp_txt if chains else '-', opts, ','.join(s_.hex() for s_ in seeds))
